@@ -33,7 +33,7 @@ import traceback
 import wsgiref.util
 
 import radicale
-from radicale import config
+from radicale import config, httputils
 from radicale import server as rs
 from radicale.app import Application
 
@@ -63,9 +63,16 @@ class HarnessApp(Application):
             GATE_CALLS.append(c)
             return 200, {"Content-Type": "text/plain"}, "done-%d" % c
         run.handler_enter(c)
-        ev = run.release_event(c)
-        ev.wait(DEADLINE * 3)
-        run.handler_leave(c)
+        try:
+            if environ.get("REQUEST_METHOD", "").upper() in BODY_VERBS:
+                # as the real handlers of these methods do; blocks in wsgi.input.read until Content-Length bytes
+                # are there, a socket.timeout ends the handler (-> 500 by Application.__call__)
+                httputils.read_raw_request_body(self.configuration, environ)
+                run.body_read(c)
+            ev = run.release_event(c)
+            ev.wait(DEADLINE * 3)
+        finally:
+            run.handler_leave(c)
         return 200, {"Content-Type": "text/plain"}, "done-%d" % c
 
 
@@ -76,6 +83,8 @@ for _v in VERBS:
 
 
 GATE_CALLS = []
+# methods whose (harness) handler reads the request body from the socket, as the real handlers of these methods do
+BODY_VERBS = ("PUT", "PROPFIND", "PROPPATCH", "REPORT", "MKCOL", "MKCALENDAR")
 
 
 class SelectProxy:
@@ -148,6 +157,25 @@ def abstract_cl(s):
         return ["bad"]
 
 
+def needs_body(m):
+    """model field r_body: the handler reads the declared body from the socket"""
+    if m.get("garbage") or not m.get("method"):
+        return False
+    a = abstract_cl(m.get("cl"))
+    return m.get("verb", "PUT") in BODY_VERBS and a[0] == "int" and a[1] != 0
+
+
+def owed_body(m, max_len):
+    """number of body bytes the client owes: only for requests that will reach a body-reading handler"""
+    if not needs_body(m):
+        return 0
+    z = abstract_cl(m.get("cl"))[1]
+    plain = m["pref"] == "ok" and m["wk"] == "none" and m["auth"] != "fail"
+    if plain and 0 < z <= 4096 and (max_len <= 0 or z <= max_len):
+        return z
+    return 0
+
+
 def build_request(c, m):
     """m: {"garbage": true} | {"pref": "ok|badheader", "method": bool, "wk": "none|redirect|notfound",
     "auth": "anon|ok|fail", "cl": str|None}.  No body bytes are ever sent (nothing reads them)."""
@@ -203,7 +231,11 @@ class Client:
     def __init__(self, c, lis):
         self.c, self.lis = c, lis
         self.sock = None
-        self.sent = None          # abstract request
+        self.sent = None          # abstract request (head complete)
+        self.partial = None       # (m, rest of the head) after a part of the head was sent
+        self.owed = 0             # body bytes still to send
+        self.body_done = False    # the handler has read the complete body
+        self.tbody_emitted = False
         self.closed = False       # client closed without sending
         self.accepted = False
         self.acc_seq = None
@@ -295,6 +327,12 @@ class Run:
             if cl is not None:
                 cl.entered = True
 
+    def body_read(self, c):
+        with self.lock:
+            cl = self.clients.get(c)
+            if cl is not None:
+                cl.body_done = True
+
     def handler_leave(self, c):
         with self.lock:
             self.in_handler -= 1
@@ -369,6 +407,8 @@ class Run:
             "storage": {"filesystem_folder": os.path.join(self.folder, "coll")},
             "auth": {"type": "htpasswd", "htpasswd_filename": ht, "htpasswd_encryption": "plain", "delay": "0"},
             "logging": {"level": "critical"}}, "verif", privileged=True)
+        if self.cfg.get("real_app"):
+            conf.update({"auth": {"type": "none"}}, "verif", privileged=True)
         if self.cfg.get("ssl"):
             static = os.path.join(os.path.dirname(radicale.__file__), "tests", "static")
             conf.update({"server": {"ssl": "True", "certificate": os.path.join(static, "cert.pem"),
@@ -457,8 +497,12 @@ class Run:
         return [cl for cl in self.clients.values() if cl.lis == lis and not cl.accepted]
 
     def silent(self):
-        return [cl for cl in self.clients.values() if cl.accepted and not cl.done and cl.sent is None
-                and not cl.closed]
+        """accepted clients the server waits for: nothing / a part of the head sent, or head sent and body outstanding"""
+        return [cl for cl in self.clients.values() if cl.accepted and not cl.done and not cl.closed and
+                (cl.sent is None or cl.owed > 0)]
+
+    def body_silent(self, cl):
+        return cl.sent is not None and cl.owed > 0
 
     def loop_parked(self):
         return self.parked.is_set() and self.serve_thread.is_alive() and self.t_return is None
@@ -490,14 +534,56 @@ class Run:
         self.stats["max_queue"] = max(self.stats["max_queue"], len(self.queued(lis)))
         self.emit("EConnect", [lis], [["ONewConn", c]])
 
-    def op_send(self, c, m):
+    def op_partial(self, c, m):
         cl = self.clients[c]
-        cl.sent = m
+        head = build_request(c, m)
+        k = max(1, min(len(head) - 4, len(head) // 2))
+        cl.partial = (m, head[k:])
         try:
-            cl.sock.sendall(build_request(c, m))
+            cl.sock.sendall(head[:k])
         except OSError as e:
             self.note("send to %d failed: %r" % (c, e))
-        self.emit("ESend", [c, m], [])
+        self.emit("EPartial", [c], [])
+
+    def op_send(self, c, m, full):
+        cl = self.clients[c]
+        data = build_request(c, m)
+        if cl.partial is not None:
+            m, data = cl.partial
+            cl.partial = None
+        cl.owed = owed_body(m, self.cfg["max_len"])
+        if not cl.owed:
+            full = True
+        m = dict(m, full=bool(full), body=needs_body(m))
+        cl.sent = m
+        if full and cl.owed:
+            data += b"x" * cl.owed
+            cl.owed = 0
+        try:
+            cl.sock.sendall(data)
+        except OSError as e:
+            self.note("send to %d failed: %r" % (c, e))
+        self.emit("ESend", [c, m, bool(full)], [])
+        if cl.accepted:
+            self.settle_read(cl)
+        return m, bool(full)
+
+    def op_body(self, c, part=False):
+        cl = self.clients[c]
+        if part:
+            # silence in the MIDDLE of the body: one more byte, the body stays incomplete (no model event)
+            try:
+                cl.sock.sendall(b"x")
+            except OSError as e:
+                self.note("send to %d failed: %r" % (c, e))
+            cl.owed -= 1
+            return
+        try:
+            cl.sock.sendall(b"x" * cl.owed)
+        except OSError as e:
+            self.note("send to %d failed: %r" % (c, e))
+        cl.owed = 0
+        self.emit("EBody", [c], [])
         if cl.accepted:
             self.settle_read(cl)
 
@@ -510,16 +596,42 @@ class Run:
         if cl.accepted:
             self.settle_read(cl)
 
+    def settle_body(self, cl):
+        """inside the handler: the complete body has arrived -> the thread reads it"""
+        if cl.tbody_emitted or cl.done or not cl.entered or not cl.sent or not cl.sent.get("body") or cl.owed > 0:
+            return
+        if not self.wait_for(lambda: cl.body_done or self.worker_ready(cl)):
+            self.fail.append(dict(what="handler never gets the complete request body", conn=cl.c))
+            raise Inconclusive("stuck")
+        if cl.body_done:
+            cl.tbody_emitted = True
+            self.emit("TBody", [cl.c], [["OBodyRead", cl.c]])
+
+    def in_handler_proper(self, cl):
+        return cl.entered and cl.read_emitted and not cl.released and not cl.done and \
+            (not cl.sent.get("body") or cl.tbody_emitted)
+
     def settle_read(self, cl):
         """the thread of an accepted connection consumes what the client did"""
-        if cl.read_emitted or cl.done:
+        if cl.done:
+            return
+        if cl.read_emitted:
+            self.settle_body(cl)
             return
         if not self.wait_for(lambda: cl.entered or self.worker_ready(cl)):
             self.fail.append(dict(what="request of an accepted connection is never read", conn=cl.c))
             raise Inconclusive("stuck")
+        if cl.read_emitted:
+            return
         cl.read_emitted = True
         if cl.entered and not self.worker_ready(cl):
             self.emit("TRead", [cl.c], [["OEnter", cl.c]])
+            self.settle_body(cl)
+            return
+        if cl.entered and self.body_silent(cl) and 0 < float(self.cfg["timeout"]) < 5:
+            # entered the handler, waited for the body, and the socket timeout has fired already
+            self.emit("TRead", [cl.c], [["OEnter", cl.c]])
+            self.timeout_seen(cl)
             return
         cl.done = True
         if cl.closed:
@@ -562,13 +674,23 @@ class Run:
     def timeout_seen(self, cl):
         cl.done = True
         self.stats["timeouts"] += 1
-        self.emit("TTimeout", [cl.c], [["OTimedOut", cl.c]])
+        body = self.body_silent(cl)
+        if body:
+            self.stats["body_timeouts"] = self.stats.get("body_timeouts", 0) + 1
+            self.emit("TTimeout", [cl.c], [["OBodyTimedOut", cl.c]])
+        else:
+            self.emit("TTimeout", [cl.c], [["OTimedOut", cl.c]])
         T = float(self.cfg["timeout"])
         if T <= 0:
             self.fail.append(dict(what="silent connection dropped although no timeout is configured", conn=cl.c))
             return
         self.pump(cl)
-        if cl.data:
+        if body:
+            st, complete = parse_response(cl.data, is_head(cl))
+            if st != 500 or not complete:
+                self.fail.append(dict(what="connection silent with the body outstanding: expected the 500 of the aborted "
+                                           "handler", conn=cl.c, status=st, complete=complete))
+        elif cl.data:
             self.fail.append(dict(what="silent connection got data", conn=cl.c, data=cl.data[:100].decode("latin-1")))
         if cl.t_eof is not None and cl.t_accept is not None and cl.t_eof < cl.t_accept + T - 0.02:
             self.fail.append(dict(what="silent connection dropped before the timeout", conn=cl.c,
@@ -577,8 +699,15 @@ class Run:
     def op_wait_timeouts(self):
         T = float(self.cfg["timeout"])
         for cl in sorted(self.silent(), key=lambda x: x.acc_seq):
+            if cl.sent is not None and not cl.read_emitted:
+                self.settle_read(cl)
+                if cl.done:
+                    continue
             if not self.wait_for(lambda: self.worker_ready(cl), deadline=T + 15.0):
-                self.fail.append(dict(what="silent connection is never dropped (timeout %.2fs)" % T, conn=cl.c))
+                phase = ("head complete, body outstanding" if self.body_silent(cl) else
+                         "inside the request head" if cl.partial else "nothing sent")
+                self.fail.append(dict(what="silent connection is never dropped (timeout %.2fs; silent phase: %s): it keeps "
+                                           "its slot" % (T, phase), conn=cl.c, request=cl.sent))
                 raise Inconclusive("stuck")
             self.timeout_seen(cl)
 
@@ -681,8 +810,15 @@ class Run:
                 if not cl.accepted and self.broke:
                     continue
                 ops.append(["send", cl.c])
-                ops.append(["close", cl.c])
-            if cl.entered and not cl.released and cl.read_emitted:
+                if cl.partial is None:
+                    ops.append(["close", cl.c])
+                    ops.append(["partial", cl.c])
+            if cl.sent is not None and cl.owed > 0 and not cl.done and not (cl.accepted and short) and \
+                    not (not cl.accepted and self.broke):
+                ops.append(["body", cl.c])
+                if cl.owed > 1:
+                    ops.append(["bodypart", cl.c])
+            if self.in_handler_proper(cl):
                 ops.append(["release", cl.c])
         if not self.stopped:
             ops.append(["stop"])
@@ -696,6 +832,12 @@ class Run:
         rng, ml = self.rng, self.cfg["max_len"]
         if rng.random() < 0.04:
             return {"garbage": True}
+        if rng.random() < 0.4:
+            # a method whose handler reads the body, declaring a small body within the limit
+            z = rng.choice([1, 2, 5, 9]) if ml <= 0 else rng.choice([1, ml, max(1, ml // 2)])
+            m = {"pref": "ok", "method": True, "wk": "none", "auth": rng.choice(["anon", "anon", "ok"]), "cl": str(z),
+                 "verb": rng.choice(BODY_VERBS)}
+            return m
         r = rng.random()
         if r < 0.45:
             cl = None if rng.random() < 0.5 else str(rng.choice([0, 1, max(ml - 1, 0), ml]))
@@ -704,6 +846,9 @@ class Run:
         else:
             cl = rng.choice(["-1", "-%d" % (ml + 5), "abc", "1_0", " 7", "+%d" % (ml + 1), "0x10", "", "00%d" % (ml + 1)])
         m = {"pref": "ok", "method": True, "wk": "none", "auth": "anon", "cl": cl, "verb": rng.choice(VERBS)}
+        a = abstract_cl(cl)
+        if m["verb"] in BODY_VERBS and a[0] == "int" and a[1] > 4096 and (ml <= 0 or a[1] <= ml):
+            m["cl"] = "3"       # a body-reading handler must not be left waiting for gigabytes
         r = rng.random()
         if r < 0.08:
             m["pref"] = "badheader"
@@ -726,7 +871,20 @@ class Run:
         elif k == "send":
             if len(op) < 3:
                 op.append(self.gen_msg())
-            self.op_send(op[1], op[2])
+            if len(op) < 4:
+                op.append(self.rng.random() < 0.5)
+            op[2], op[3] = self.op_send(op[1], op[2], op[3])
+        elif k == "partial":
+            if len(op) < 3:
+                m = self.gen_msg()
+                while m.get("garbage"):
+                    m = self.gen_msg()
+                op.append(m)
+            self.op_partial(op[1], op[2])
+        elif k == "body":
+            self.op_body(op[1])
+        elif k == "bodypart":
+            self.op_body(op[1], part=True)
         elif k == "close":
             self.op_close(op[1])
         elif k == "release":
@@ -789,14 +947,17 @@ class Run:
                 break
             acted = False
             for cl in todo:
-                if cl.entered and cl.read_emitted and not cl.released:
+                if self.in_handler_proper(cl):
                     self.do(["release", cl.c])
                     acted = True
                 elif cl.sent is None and not cl.closed and not (cl.accepted and short):
-                    if cl.accepted and float(self.cfg["timeout"]) <= 0 or rng.random() < 0.7:
+                    if cl.partial is not None or rng.random() < 0.7:
                         self.do(["send", cl.c])
                     else:
                         self.do(["close", cl.c])
+                    acted = True
+                elif cl.sent is not None and cl.owed > 0 and not (cl.accepted and short):
+                    self.do(["body", cl.c])
                     acted = True
             if short and self.silent():
                 self.do(["wait_timeouts"])
@@ -831,10 +992,14 @@ class Run:
                 cl = self.clients[c]
                 if cl.entered and not cl.read_emitted:
                     self.settle_read(cl)
-                if cl.entered and not cl.released:
+                if cl.done:
+                    continue
+                if self.in_handler_proper(cl):
                     self.do(["release", c])
                 elif cl.sent is None and not cl.closed and not short:
-                    self.do(["send", c] if rng.random() < 0.6 else ["close", c])
+                    self.do(["send", c] if (cl.partial is not None or rng.random() < 0.6) else ["close", c])
+                elif cl.sent is not None and cl.owed > 0 and not short:
+                    self.do(["body", c])
                 elif cl.sent is not None or cl.closed:
                     self.settle_read(cl)
             if short and self.silent():
@@ -919,7 +1084,7 @@ def run_free(job):
     n = rng.randint(mc + 1, mc + MAXQ) if mc > 0 else rng.randint(3, 8)
     plans = []
     for c in range(n):
-        kind = rng.choice(["fast", "fast", "fast", "slow", "silent", "closer"])
+        kind = rng.choice(["fast", "fast", "fast", "slow", "silent", "closer", "parthead", "headonly", "partbody"])
         plans.append(dict(c=c, lis=rng.randrange(cfg["listeners"]), kind=kind, offset=rng.random() * 0.2,
                           delay=rng.random() * 0.15, hold=rng.choice([0.0, 0.02, 0.1, 0.25]), m=None))
     stop_at = rng.choice([None, None, rng.random() * 0.6])
@@ -955,7 +1120,26 @@ def run_free(job):
                     time.sleep(p["delay"])
                 if kind in ("fast", "slow"):
                     cl.sent = p["m"]
-                    s_.sendall(build_request(p["c"], p["m"]))
+                    s_.sendall(build_request(p["c"], p["m"]) + b"x" * owed_body(p["m"], ml))
+                elif kind in ("headonly", "partbody"):
+                    # head complete, body outstanding (wholly / all but the last byte), then silence;
+                    # without a short timeout the rest follows after a pause
+                    cl.sent = p["m"]
+                    z = owed_body(p["m"], ml)
+                    cl.owed = z if kind == "headonly" else 1
+                    s_.sendall(build_request(p["c"], p["m"]) + b"x" * (z - cl.owed))
+                    if not short:
+                        time.sleep(p["delay"] + 0.1)
+                        s_.sendall(b"x" * cl.owed)
+                        cl.owed = 0
+                elif kind == "parthead":
+                    head = build_request(p["c"], p["m"])
+                    s_.sendall(head[:len(head) // 2])
+                    cl.partial = True
+                    if not short:
+                        time.sleep(p["delay"] + 0.1)
+                        cl.sent = p["m"]
+                        s_.sendall(head[len(head) // 2:] + b"x" * owed_body(p["m"], ml))
                 elif kind == "closer" or (kind == "silent" and not short):
                     time.sleep(p["delay"] if kind == "closer" else 0.3)
                     if not short or kind == "closer" and not cl.accepted:
@@ -966,6 +1150,15 @@ def run_free(job):
                 p["error"] = repr(e)
         for p in plans:
             p["m"] = run.gen_msg()
+            if p["kind"] in ("headonly", "partbody"):
+                z = 6 if ml <= 0 else min(ml, 6)
+                if z < 2 and p["kind"] == "partbody":
+                    p["kind"] = "headonly"
+                p["m"] = {"pref": "ok", "method": True, "wk": "none", "auth": "anon", "cl": str(z),
+                          "verb": rng.choice(BODY_VERBS)}
+            elif p["kind"] == "parthead":
+                while p["m"].get("garbage"):
+                    p["m"] = run.gen_msg()
         threads = [threading.Thread(target=client, args=(p,), daemon=True) for p in plans]
         t0 = time.monotonic()
         for t in threads:
@@ -1014,16 +1207,26 @@ def run_free(job):
             if not cl.accepted:
                 continue
             st, complete = parse_response(cl.data, is_head(cl))
-            if c in run.handler_calls and (st != 200 or not complete):
-                run.fail.append(dict(what="request in flight did not get a complete response", conn=c, status=st,
-                                     complete=complete, free=True))
+            body_silent = short and cl.sent is not None and cl.owed > 0
+            if c in run.handler_calls and (st != (500 if body_silent else 200) or not complete):
+                run.fail.append(dict(what="request in flight did not get a complete response" if not body_silent else
+                                     "connection silent with the body outstanding: expected the 500 of the aborted handler",
+                                     conn=c, status=st, complete=complete, free=True))
+            if body_silent and cl.t_eof is not None and cl.t_accept is not None:
+                run.stats["body_timeouts"] = run.stats.get("body_timeouts", 0) + 1
+                if cl.t_eof < cl.t_accept + T - 0.02:
+                    run.fail.append(dict(what="silent connection dropped before the timeout", conn=c,
+                                         after=cl.t_eof - cl.t_accept, timeout=T))
             if short and cl.sent is None and not cl.closed and cl.t_eof is not None and cl.t_accept is not None:
                 run.stats["timeouts"] += 1
                 if cl.t_eof < cl.t_accept + T - 0.02 or cl.data:
                     run.fail.append(dict(what="silent connection dropped before the timeout", conn=c,
                                          after=cl.t_eof - cl.t_accept, timeout=T))
             if not cl.eof and cl.sock is not None:
-                run.fail.append(dict(what="free-running: accepted connection never finished", conn=c))
+                phase = ("head complete, body outstanding" if cl.sent is not None and cl.owed > 0 else
+                         "inside the request head" if cl.partial else "nothing sent" if cl.sent is None else "request sent")
+                run.fail.append(dict(what="free-running: accepted connection never finished (client: %s): it keeps its slot"
+                                     % phase, conn=c, request=cl.sent))
         res["plans"] = plans
         res["stop_at"] = stop_at
     except Inconclusive as e:
@@ -1307,25 +1510,31 @@ def run_realgate(job):
     return dict(results=out, verbs=VERBS, verbs_without_request=missing)
 
 
-# ------------------------------------------------------------------------------------------ TLS: silent before / after the handshake
-def run_ssl(job):
-    """ssl = True, free-running: a TCP client that never starts the TLS handshake must be dropped by the socket
-    timeout (it holds the only slot), a real client queued behind it must then be served, a client that goes silent
-    AFTER the handshake must be dropped too, and a shutdown with a silent TCP client in flight must return."""
+# ------------------------------------------------------------------------------------------ silence in every phase, real application
+def run_silent(job):
+    """Free-running, the REAL Application (real do_* handlers), plain http or ssl = True, few slots: for every phase in
+    which a client can go silent -- (tls) TCP connect without handshake, (tls) after the handshake, before the request
+    line, inside the head, head complete + Content-Length: N + no body, partial body -- the silent client must be dropped
+    by the socket timeout (not before it, within timeout + MARGIN), the well-behaved client queued behind it must then be
+    served, and finally a shutdown with a silent client in flight must return."""
     global FAILED_SCRIPTS
     import ssl as ssl_mod
     cfg = dict(job["cfg"])
-    cfg["ssl"] = True
+    use_ssl = bool(cfg.get("ssl"))
+    cfg["real_app"] = True
     T = float(cfg["timeout"])
     MARGIN = 15.0
     run = Run(cfg, False, random.Random(job.get("seed", 0)))
-    res = dict(cfg=cfg, inconclusive=None, ssl=True, seed=job.get("seed", 0))
+    res = dict(cfg=cfg, inconclusive=None, silent=True, seed=job.get("seed", 0), phases=job["phases"])
     steps = []
     ctxc = ssl_mod.create_default_context()
     ctxc.check_hostname = False
     ctxc.verify_mode = ssl_mod.CERT_NONE
+    counter = [0]
 
-    def tcp_client(c):
+    def tcp_client():
+        c = counter[0]
+        counter[0] += 1
         cl = Client(c, 0)
         s_ = socket.socket(socket.AF_INET, socket.SOCK_STREAM)
         s_.settimeout(DEADLINE + T + MARGIN)
@@ -1337,85 +1546,129 @@ def run_ssl(job):
         cl.sock = s_
         return cl
 
-    def dropped(cl, what):
-        """the silent client must see the connection closed, not before the timeout"""
+    def tls(cl):
+        if use_ssl:
+            cl.sock = ctxc.wrap_socket(cl.sock, server_hostname="localhost")
+
+    def wait_drop(cl, what, t_last):
+        """the silent client must see its connection closed: not before the timeout, not later than timeout + MARGIN"""
         if not run.wait_for(lambda: cl.accepted, deadline=T + MARGIN + DEADLINE):
-            run.fail.append(dict(what="ssl: %s is never accepted" % what, conn=cl.c))
+            run.fail.append(dict(what="silent-client scenario: client (%s) is never accepted" % what, conn=cl.c))
             return False
-        if not cl.pump(T + MARGIN):
-            run.fail.append(dict(what="ssl: %s is never dropped (timeout %.1fs): it keeps its slot" % (what, T), conn=cl.c))
+        cl.sock.settimeout(T + MARGIN)
+        data, dropped = b"", False
+        try:
+            while True:
+                chunk = cl.sock.recv(65536)
+                if not chunk:
+                    dropped = True
+                    break
+                data += chunk
+        except socket.timeout:
+            dropped = False
+        except (ssl_mod.SSLError, OSError):
+            dropped = True
+        now = time.monotonic()
+        if not dropped:
+            run.fail.append(dict(
+                what="client silent in phase '%s' is never dropped (timeout %.1fs%s): it keeps its slot, the next client is not "
+                     "served" % (what, T, ", ssl" if use_ssl else ""), conn=cl.c))
             return False
-        steps.append(dict(client=what, dropped_after=round(cl.t_eof - cl.t_accept, 3)))
-        if cl.t_eof < cl.t_accept + T - 0.05:
-            run.fail.append(dict(what="ssl: %s dropped before the timeout" % what, after=cl.t_eof - cl.t_accept, timeout=T))
+        answer = parse_response(data)[0]
+        steps.append(dict(phase=what, dropped_after=round(now - max(cl.t_accept, t_last), 3), answer=answer))
+        if answer not in (0, 408, 500):
+            # the handler answered without waiting for the rest (e.g. an access check before the body is read):
+            # the client was not waited for, nothing to time out
+            steps[-1]["answered_without_waiting"] = True
+        elif now < cl.t_accept + T - 0.05:
+            run.fail.append(dict(what="client silent in phase '%s' dropped before the timeout" % what,
+                                 after=now - cl.t_accept, timeout=T))
         return True
 
-    try:
-        run.start()
-        for c in range(8):
-            run.release_event(c).set()          # handlers return at once
-        # A: TCP connect, no handshake.  B: a real client queued behind it.
-        a = tcp_client(0)
-        run.wait_for(lambda: a.accepted)
-        bres = {}
+    def real_client(out):
+        try:
+            cl = tcp_client()
+            tls(cl)
+            cl.sock.sendall(b"GET / HTTP/1.1\r\nHost: localhost\r\n\r\n")
+            data = b""
+            while True:
+                chunk = cl.sock.recv(65536)
+                if not chunk:
+                    break
+                data += chunk
+            out["status"], out["complete"] = parse_response(data)
+        except Exception as e:
+            out["error"] = repr(e)
 
-        def real_client(c, out):
-            try:
-                cl = tcp_client(c)
-                tls = ctxc.wrap_socket(cl.sock, server_hostname="localhost")
-                out["handshake"] = time.monotonic()
-                tls.sendall(("GET /c%d HTTP/1.1\r\nHost: localhost\r\nX-Conn: %d\r\n\r\n" % (c, c)).encode())
-                data = b""
-                while True:
-                    chunk = tls.recv(65536)
-                    if not chunk:
-                        break
-                    data += chunk
-                out["status"], out["complete"] = parse_response(data)
-            except Exception as e:
-                out["error"] = repr(e)
-        tb = threading.Thread(target=real_client, args=(1, bres), daemon=True)
-        tb.start()
-        ok = dropped(a, "TCP client that never starts the TLS handshake")
-        tb.join((T + MARGIN + DEADLINE) if ok else 2.0)
-        steps.append(dict(client="real TLS client queued behind it", result=dict(bres)))
-        if ok and (tb.is_alive() or bres.get("status") != 200 or not bres.get("complete")):
-            run.fail.append(dict(what="ssl: real client queued behind the silent one is not served", result=dict(bres)))
+    def silent_client(phase):
+        """returns (client, time of its last byte)"""
+        cl = tcp_client()
+        kind, _, verb = phase.partition(":")
+        verb = verb or "PUT"
+        if kind == "tcp-no-handshake":
+            return cl, time.monotonic()
+        tls(cl)                       # blocks until the server side took part: the connection has been accepted
+        path = ("/u/x.ics" if verb == "PUT" else "/u/new%d/" % cl.c if verb in ("MKCALENDAR", "MKCOL") else "/u/")
+        head = ("%s %s HTTP/1.1\r\nHost: localhost\r\nAuthorization: Basic dTpw\r\nContent-Type: text/xml\r\n"
+                "Content-Length: 200\r\n\r\n" % (verb, path)).encode()
+        if kind in ("nothing", "after-handshake"):
+            pass
+        elif kind == "in-head":
+            cl.sock.sendall(head[:len(head) // 2])
+        elif kind == "head-no-body":
+            cl.sock.sendall(head)
+        elif kind == "partial-body":
+            cl.sock.sendall(head + b"<" * 120)
+        else:
+            raise ValueError(phase)
+        return cl, time.monotonic()
+
+    saved_app = rs.Application
+    try:
+        rs.Application = Application          # the real one; serve() builds it during start()
+        try:
+            run.start()
+        finally:
+            rs.Application = saved_app
+        for phase in job["phases"]:
+            if run.fail:
+                break
+            if use_ssl and phase != "tcp-no-handshake":
+                # the TLS handshake needs the server thread: it completes only once the connection is accepted
+                box = {}
+                th = threading.Thread(target=lambda: box.update(r=silent_client(phase)), daemon=True)
+                th.start()
+                th.join(DEADLINE)
+                if "r" not in box:
+                    run.fail.append(dict(what="silent-client scenario: TLS handshake of the client does not complete", phase=phase))
+                    break
+                a, t_last = box["r"]
+            else:
+                a, t_last = silent_client(phase)
+            run.wait_for(lambda: a.accepted)
+            bres = {}
+            tb = threading.Thread(target=real_client, args=(bres,), daemon=True)
+            tb.start()
+            ok = wait_drop(a, phase, t_last)
+            tb.join((T + MARGIN + DEADLINE) if ok else 2.0)
+            steps.append(dict(phase=phase, next_client=dict(bres)))
+            if ok and (tb.is_alive() or not bres.get("status") or not bres.get("complete")):
+                run.fail.append(dict(what="the client queued behind the silent one (phase '%s') is not served" % phase,
+                                     result=dict(bres)))
         if not run.fail:
-            # C: handshake, then silence
-            cres = {}
-            cl_c = tcp_client(2)
-            try:
-                tls_c = ctxc.wrap_socket(cl_c.sock, server_hostname="localhost")
-                cl_c.sock = tls_c
-                t_hs = time.monotonic()
-                tls_c.settimeout(T + MARGIN)
-                try:
-                    b = tls_c.recv(100)
-                except (ssl_mod.SSLError, OSError) as e:
-                    b = b"" if not isinstance(e, socket.timeout) else None
-                if b is None:
-                    run.fail.append(dict(what="ssl: client silent after the handshake is never dropped (timeout %.1fs)" % T))
-                else:
-                    steps.append(dict(client="silent after handshake", dropped_after=round(time.monotonic() - t_hs, 3)))
-                    if time.monotonic() - cl_c.t_accept < T - 0.05:
-                        run.fail.append(dict(what="ssl: client silent after the handshake dropped before the timeout"))
-            except Exception as e:
-                run.fail.append(dict(what="ssl: handshake of a well-behaved client failed", error=repr(e)))
-        # D: shutdown with a silent TCP client in flight
-        if not run.fail:
-            e_ = tcp_client(3)
+            # shutdown with a silent client (first phase) in flight
+            e_, _ = silent_client("tcp-no-handshake" if use_ssl else job["phases"][-1])
             run.wait_for(lambda: e_.accepted)
             t_stop = time.monotonic()
             run.stopped = True
             run.shutdown_in.close()
             if not run.wait_for(lambda: run.t_return is not None, deadline=T + MARGIN):
-                run.fail.append(dict(what="ssl: serve() does not return after shutdown: a TCP client that never starts the "
-                                          "handshake blocks it"))
+                run.fail.append(dict(what="serve() does not return after shutdown: a silent client in flight blocks it"))
             else:
                 steps.append(dict(shutdown_returned_after=round(run.t_return - t_stop, 3)))
-                if run.t_closing.get(3) is None or run.t_closing[3] > run.t_return:
-                    run.fail.append(dict(what="serve() returned while accepted connections were still being processed", conns=[3]))
+                if run.t_closing.get(e_.c) is None or run.t_closing[e_.c] > run.t_return:
+                    run.fail.append(dict(what="serve() returned while accepted connections were still being processed",
+                                         conns=[e_.c]))
         mc = cfg["max_conn"]
         if mc > 0 and run.max_worker_sockets > mc:
             run.fail.append(dict(what="more connections in flight than max_connections", worker_sockets=run.max_worker_sockets))
@@ -1425,6 +1678,7 @@ def run_ssl(job):
         res["inconclusive"] = "driver error: " + traceback.format_exc()
         res["driver_error"] = True
     finally:
+        rs.Application = saved_app
         try:
             run.cleanup()
         except Exception:
@@ -1446,8 +1700,8 @@ def main():
                 out.append(run_neglen(job))
             elif job["kind"] == "realgate":
                 out.append(run_realgate(job))
-            elif job["kind"] == "ssl":
-                out.append(run_ssl(job))
+            elif job["kind"] == "silent":
+                out.append(run_silent(job))
             else:
                 out.append(run_gate(job))
         except BaseException:
